@@ -9,6 +9,7 @@ import Omaha.Drv.Request
 import Omaha.Drv.Response
 import Omaha.Drv.Uri
 import Omaha.Drv.SM
+import Omaha.Drv.Gen
 
 open Omaha Omaha.Drv
 
@@ -21,6 +22,7 @@ def handleLine (line : String) : String :=
   | "resp" :: rest => handleResponse rest
   | "uri" :: rest => handleUri rest
   | "sm" :: rest => handleSM rest
+  | "gen" :: rest => handleGen rest
   -- the implementation compared with itself under storage failures: the model's answer is what
   -- `storage_failures_invisible_history` (Props/C14) proves, for every history
   | "smfault" :: _ => "same"
